@@ -240,6 +240,20 @@ def check_marking(prog, report):
             raise AnalysisError('%s: signature changed' % fi.where())
         ind, theta = params[1], params[2]
         short = q.split('.')[-1]
+        # memory-layout dependent flattening of the caller's array
+        for n_ in ast.walk(fn):
+            if isinstance(n_, ast.Call) and any(
+                    k_.arg == 'order' and isinstance(
+                        k_.value, ast.Constant) and k_.value.value in (
+                            'K', 'A') for k_ in n_.keywords):
+                report.violation(
+                    'R-mark', short + ' layout-dependent flattening',
+                    fi.where(n_),
+                    '`%s` flattens the indicator array in memory order: '
+                    'the (element, direction) decoding then depends on '
+                    'whether the caller\'s array is C- or Fortran-'
+                    'contiguous' % text(n_)[:50],
+                    construct=short + ': order=K/A flattening')
         # the marking loop: the for loop containing `break`
         mloops = [n for n in fn.body if isinstance(n, ast.For) and any(
             isinstance(m, ast.Break) for m in ast.walk(n))]
